@@ -23,10 +23,16 @@ import (
 	"time"
 )
 
-const (
-	repoDir = "/repo"
-	goBin   = "go1.26.8"
-)
+const goBin = "go1.26.8"
+
+// repoDir is the ship-go tree the checks are built from: /repo, or (for my own
+// sensitivity experiments on scratch worktrees only) $VERIF_REPO.
+var repoDir = func() string {
+	if d := os.Getenv("VERIF_REPO"); d != "" {
+		return d
+	}
+	return "/repo"
+}()
 
 // verifDir is the directory holding MANIFEST.json: the working directory when
 // it has one (background runs work on a snapshot), /verif otherwise.
@@ -200,6 +206,18 @@ func build(scratch string, race bool) string {
 	}
 	bin := filepath.Join(scratch, "harness.test")
 	args := []string{"test", "-c", "-tags", "verif", "-overlay", filepath.Join(scratch, "overlay.json"), "-o", bin}
+	if repoDir != "/repo" {
+		// a scratch tree: same module file with the replace directive pointing there
+		mod, err := os.ReadFile(filepath.Join(verifDir, "go.mod"))
+		if err != nil {
+			fatal2("%v", err)
+		}
+		sum, _ := os.ReadFile(filepath.Join(verifDir, "go.sum"))
+		alt := strings.Replace(string(mod), "=> /repo", "=> "+repoDir, 1)
+		_ = os.WriteFile(filepath.Join(scratch, "go.mod"), []byte(alt), 0o644)
+		_ = os.WriteFile(filepath.Join(scratch, "go.sum"), sum, 0o644)
+		args = append(args, "-modfile", filepath.Join(scratch, "go.mod"))
+	}
 	if race {
 		args = append(args, "-race")
 	}
